@@ -74,7 +74,10 @@ def compositions(n: int) -> List[Tuple[int, ...]]:
     return out
 
 
-ATOMS = ['any', 'one', 'not', 'rng', 'rgs', 'str', 'stn', 'ist', 'by3', 'eof', 'bof', 'bol', 'eol', 'eolf', 'evr', 'rq2', 'suc', 'fai']
+ATOMS = ['any', 'one', 'not', 'rng', 'rgs', 'str', 'stn', 'ist', 'by3', 'eof', 'bof', 'bol', 'eol', 'eolf', 'evr', 'rq2', 'suc', 'fai', 'r13', 'r02', 'rn2']
+
+
+REP_ONE = {'r13': (1, 3, 0x61), 'r02': (0, 2, 0x61), 'rn2': (1, 2, 0x0a)}
 
 
 def atom_spec(name: str, stream: bytes, byte: int, col: int, eol: str) -> Tuple[bool, int, int]:
@@ -128,6 +131,16 @@ def atom_spec(name: str, stream: bytes, byte: int, col: int, eol: str) -> Tuple[
         return (True, 0, 0)
     if name == 'fai':
         return (False, 0, 0)
+    if name in REP_ONE:              # contrib rep_one_min_max< lo, hi, c >: looks at Max + 1 bytes, counts the leading c's
+        lo, hi, ch = REP_ONE[name]
+        w = rem[:hi + 1]
+        if len(w) < lo:
+            return (False, 0, hi + 1)
+        i = 0
+        while i < len(w) and w[i] == ch:
+            i += 1
+        ok = lo <= i <= hi
+        return (ok, i if ok else 0, hi + 1)
     raise ValueError(name)
 
 
